@@ -5,10 +5,10 @@
 //! instance) are judged by `verify_stark_proof` and presented to the circuit through
 //! `set_stark_proof_with_pis_target` + witness generation + the satisfaction oracle.
 use plonky2::field::extension::quadratic::QuadraticExtension;
-use plonky2::field::extension::{Extendable, FieldExtension};
+use plonky2::field::extension::FieldExtension;
 use plonky2::field::packed::PackedField;
 use plonky2::field::polynomial::PolynomialValues;
-use plonky2::field::types::{Field, PrimeField64};
+use plonky2::field::types::Field;
 use plonky2::fri::reduction_strategies::FriReductionStrategy;
 use plonky2::fri::{FriConfig, FriParams};
 use plonky2::hash::merkle_tree::MerkleCap;
